@@ -204,19 +204,35 @@ func (s *handler) handleReader(ctx context.Context, r io.Reader, w io.Writer, rp
 			return
 		}
 
-		_, _ = w.Write([]byte("[")) // todo consider handling this error
-		for idx, req := range reqs {
-			if req.ID, err = normalizeID(req.ID); err != nil {
-				rpcError(wf, &req, rpcParseError, xerrors.Errorf("failed to parse ID: %w", err))
-				return
+		// Collect the response of each request separately: notifications contribute no
+		// element (an all-notification batch gets an empty reply), and a request with an
+		// invalid id gets an error element without cutting the array short.
+		var resps [][]byte
+		for _, req := range reqs {
+			var rbuf bytes.Buffer
+			rwf := func(cb func(io.Writer)) {
+				cb(&rbuf)
 			}
 
-			s.handle(ctx, req, wf, rpcError, func(bool) {}, nil)
+			if req.ID, err = normalizeID(req.ID); err != nil {
+				rpcError(rwf, &req, rpcParseError, xerrors.Errorf("failed to parse ID: %w", err))
+			} else {
+				s.handle(ctx, req, rwf, rpcError, func(bool) {}, nil)
+				if req.ID == nil {
+					continue // notification, never answered
+				}
+			}
 
-			if idx != len(reqs)-1 {
-				_, _ = w.Write([]byte(",")) // todo consider handling this error
+			if resp := bytes.TrimSpace(rbuf.Bytes()); len(resp) > 0 {
+				resps = append(resps, resp)
 			}
 		}
+		if len(resps) == 0 {
+			return
+		}
+
+		_, _ = w.Write([]byte("[")) // todo consider handling this error
+		_, _ = w.Write(bytes.Join(resps, []byte(",")))
 		_, _ = w.Write([]byte("]")) // todo consider handling this error
 	} else {
 		var req request
